@@ -203,3 +203,15 @@ Theorem php_chain_keeps_references_resolving : forall ss out,
   refs_ok out /\ entries_ok out.
 Proof. exact php_chain_keeps_references. Qed.
 Print Assumptions php_chain_keeps_references_resolving.
+Theorem typescript_chain_keeps_resolving_full : forall ss out,
+  wf_refs_input ss -> resolves ss = true -> process chain_typescript ss = Ok out -> resolves out = true.
+Proof. exact typescript_chain_keeps_resolving. Qed.
+Print Assumptions typescript_chain_keeps_resolving_full.
+(* non-vacuity of the Go / Java / PHP reference theorems: the chains really create or remove objects *)
+Theorem chain_reference_theorems_nonvacuous :
+  (wf_refs_input w_tame /\ no_mappings w_tame = true /\ resolves w_tame = true /\
+   exists out, process chain_go w_tame = Ok out /\ resolves out = true /\ List.length (objects_of w_tame) < List.length (objects_of out)) /\
+  (wf_refs_input w_inline_closed /\ tame_php_refs w_inline_closed = true /\ resolves w_inline_closed = true /\
+   exists out, process chain_php w_inline_closed = Ok out /\ resolves out = true /\ List.length (objects_of out) < List.length (objects_of w_inline_closed)).
+Proof. split; [exact go_chain_references_nonvacuous|exact php_chain_references_nonvacuous]. Qed.
+Print Assumptions chain_reference_theorems_nonvacuous.
